@@ -321,23 +321,11 @@ pub fn classify(params: &Value, cfg: &ClassCfg) -> Class {
         Ok(s) => s,
         Err(_) => return Class::NotTrampoline("invoice not utf8"),
     };
-    let signed = match lightning_invoice::SignedRawBolt11Invoice::from_str(inv_str) {
-        Ok(s) => s,
-        Err(_) => return Class::NotTrampoline("invoice does not parse"),
-    };
-    // Signature: recover the key and verify against it.
-    let payee = match signed.recover_payee_pub_key() {
-        Ok(k) => k.0,
-        Err(_) => return Class::NotTrampoline("signature not recoverable"),
-    };
-    if !signed.check_signature() {
-        return Class::NotTrampoline("signature invalid");
-    }
-    let invoice = match lightning_invoice::Bolt11Invoice::from_signed(signed) {
+    let info = match invoice_info(inv_str, &cfg.local_pubkey) {
         Ok(i) => i,
-        Err(_) => return Class::NotTrampoline("invoice semantically invalid"),
+        Err(why) => return Class::NotTrampoline(why),
     };
-    let inv_hash: H32 = invoice.payment_hash().to_byte_array();
+    let inv_hash: H32 = info.hash;
     if cfg.require_hash_match && inv_hash[..] != htlc_hash[..] {
         return Class::NotTrampoline("invoice hash differs from htlc hash");
     }
@@ -345,7 +333,7 @@ pub fn classify(params: &Value, cfg: &ClassCfg) -> Class {
         .iter()
         .find(|r| r.typ == 33003)
         .and_then(|r| tu64(&r.value));
-    let (amount, has_amount) = match (invoice.amount_milli_satoshis(), tlv_amount) {
+    let (amount, has_amount) = match (info.amount, tlv_amount) {
         (Some(a), Some(t)) if a == t => (a, true),
         (Some(_), Some(_)) => return Class::NotTrampoline("amount field disagrees with invoice"),
         (Some(a), None) => (a, true),
@@ -353,31 +341,86 @@ pub fn classify(params: &Value, cfg: &ClassCfg) -> Class {
         (None, None) => return Class::NotTrampoline("no amount anywhere"),
     };
     // Route-hint gate.
-    let self_last = invoice.route_hints().iter().any(|h| {
-        h.0.last()
-            .map(|hop| hop.src_node_id == cfg.local_pubkey)
-            .unwrap_or(false)
-    });
-    if self_last && !cfg.allow_self_route_hints {
+    if info.self_last_hop && !cfg.allow_self_route_hints {
         return Class::SelfHintRefused;
     }
     let forward = match forward_msat {
         Some(f) => f,
         None => return Class::NoForwardAmount,
     };
-    let payee_key = invoice
-        .payee_pub_key()
-        .copied()
-        .unwrap_or(payee);
     Class::Trampoline(Box::new(Tramp {
         hash: inv_hash,
         bolt11: inv_str.to_string(),
         amount_msat: amount,
         invoice_has_amount: has_amount,
-        payee: payee_key.to_string(),
+        payee: info.payee.clone(),
         forward_msat: forward,
         declared_total: total_msat.unwrap_or(forward),
     }))
+}
+
+/// What the reference needs to know about an invoice string. Parsing and
+/// signature recovery cost ~0.2 ms, and a run sees the same few strings over
+/// and over, so the result is memoised per thread (pure function of the string
+/// and the fixed local node key).
+#[derive(Clone, Debug)]
+pub struct InvInfo {
+    pub hash: H32,
+    pub amount: Option<u64>,
+    pub payee: String,
+    pub self_last_hop: bool,
+}
+
+pub fn invoice_info(inv_str: &str, local: &secp256k1::PublicKey) -> Result<std::rc::Rc<InvInfo>, &'static str> {
+    use std::cell::RefCell;
+    use std::collections::HashMap;
+    use std::rc::Rc;
+    thread_local! {
+        static CACHE: RefCell<HashMap<String, Result<Rc<InvInfo>, &'static str>>> = RefCell::new(HashMap::new());
+    }
+    if let Some(hit) = CACHE.with(|c| c.borrow().get(inv_str).cloned()) {
+        return hit;
+    }
+    let res = invoice_info_uncached(inv_str, local).map(Rc::new);
+    CACHE.with(|c| {
+        let mut c = c.borrow_mut();
+        if c.len() > 512 {
+            c.clear();
+        }
+        c.insert(inv_str.to_string(), res.clone());
+    });
+    res
+}
+
+fn invoice_info_uncached(inv_str: &str, local: &secp256k1::PublicKey) -> Result<InvInfo, &'static str> {
+    let signed = match lightning_invoice::SignedRawBolt11Invoice::from_str(inv_str) {
+        Ok(s) => s,
+        Err(_) => return Err("invoice does not parse"),
+    };
+    // Signature: recover the key and verify against it.
+    let payee = match signed.recover_payee_pub_key() {
+        Ok(k) => k.0,
+        Err(_) => return Err("signature not recoverable"),
+    };
+    if !signed.check_signature() {
+        return Err("signature invalid");
+    }
+    let invoice = match lightning_invoice::Bolt11Invoice::from_signed(signed) {
+        Ok(i) => i,
+        Err(_) => return Err("invoice semantically invalid"),
+    };
+    let self_last_hop = invoice.route_hints().iter().any(|h| {
+        h.0.last()
+            .map(|hop| hop.src_node_id == *local)
+            .unwrap_or(false)
+    });
+    let payee_key = invoice.payee_pub_key().copied().unwrap_or(payee);
+    Ok(InvInfo {
+        hash: invoice.payment_hash().to_byte_array(),
+        amount: invoice.amount_milli_satoshis(),
+        payee: payee_key.to_string(),
+        self_last_hop,
+    })
 }
 
 fn valid_scid(s: &str) -> bool {
